@@ -47,12 +47,15 @@ OnQuiet(e) ==
 
 \* Gossip!Route for one owner candidate
 OnRoute(e) ==
-  LET expectLocal == e.haveLocal
-      remoteOk == ~e.haveLocal /\ e.memberlist /\ e.owner \notin {"", "self"} /\ e.addr /\ e.stream
+  LET expectLocal == e.haveLocal /\ ~e.closed
+      remoteAvail == e.memberlist /\ e.owner \notin {"", "self"} /\ e.addr /\ e.stream
       ok == /\ e.panic = ""
             /\ (expectLocal => e.result /\ e.local = 1 /\ e.remote = 0)
-            /\ (remoteOk => e.result /\ e.local = 0 /\ e.remote = 1)
-            /\ ((~expectLocal /\ ~remoteOk) => ~e.result /\ e.local = 0 /\ e.remote = 0)
+            /\ ((~e.haveLocal /\ remoteAvail) => e.result /\ e.local = 0 /\ e.remote = 1)
+            /\ ((~e.haveLocal /\ ~remoteAvail) => ~e.result /\ e.local = 0 /\ e.remote = 0)
+            \* a closed local channel takes nothing; whether the call then reaches the remote owner or reports failure, it never
+            \* reports success without having handed the message to exactly one party
+            /\ (e.closed => e.local = 0 /\ e.remote <= 1 /\ e.result = (e.remote = 1) /\ (~remoteAvail => e.remote = 0))
   IN /\ (IF ok THEN TRUE ELSE FlagAll({<<l, "route", e.id, 0>>}))
      /\ UNCHANGED <<seqno, claim, held, left, broken>>
 
